@@ -48,6 +48,9 @@ def _fn(x, n):
     return {i + 1: v for i, v in enumerate(x)}
 
 
+REPL = "hello(bye)"  # not idempotent: a line edited twice shows
+
+
 def check_regex(chk: Check) -> None:
     from codemodder.codemods.regex_transformer import RegexTransformerPipeline, SastRegexTransformerPipeline
     from codemodder.file_context import FileContext
@@ -74,15 +77,14 @@ def check_regex(chk: Check) -> None:
         root.mkdir()
         path = root / "doc.txt"
         path.write_bytes(text.encode())
-        flines = [i for i, ln in enumerate(doc, 1) if ln["f"]]
-        all_results = [_result(Path("doc.txt"), i) for i in flines]
+        all_results = [_result(Path("doc.txt"), i, fid=f"L{i}.{k}") for i, ln in enumerate(doc, 1) for k in range(1, ln["f"] + 1)]
         mode = sc["mode"]
         if mode == "plain":
-            pipe, results, fc_results = RegexTransformerPipeline("hello", "bye", "edit"), None, all_results
+            pipe, results, fc_results = RegexTransformerPipeline("hello", REPL, "edit"), None, all_results
         elif mode == "sast":
-            pipe, results, fc_results = SastRegexTransformerPipeline("hello", "bye", "edit"), all_results, all_results
+            pipe, results, fc_results = SastRegexTransformerPipeline("hello", REPL, "edit"), all_results, all_results
         else:
-            pipe, results, fc_results = SastRegexTransformerPipeline("hello", "bye", "edit"), [], []
+            pipe, results, fc_results = SastRegexTransformerPipeline("hello", REPL, "edit"), [], []
         if mode == "sast" and not all_results:
             continue  # SAST use with results = None is not a SAST use; with an empty list it is the "noresults" mode
         fc = FileContext(root, path, [], [], fc_results)
@@ -107,14 +109,14 @@ def check_regex(chk: Check) -> None:
         if cs:
             for ch in cs.changes:
                 got = sorted(f.id for f in (ch.findings or []))
-                want = sorted(f"L{i}" for i in want_find.get(ch.lineNumber, ()))
+                want = sorted(f"L{i}.{k}" for i, k in want_find.get(ch.lineNumber, ()))
                 if got != want:
                     problems.append(f"change on line {ch.lineNumber} carries findings {got}, reported on that line: {want}")
         got_unfixed = sorted(u.id for u in fc.unfixed_findings)
-        want_unfixed = sorted(f"L{i}" for i in exp["unfixed"])
+        want_unfixed = sorted(f"L{i}.{k}" for i, k in exp["unfixed"])
         if got_unfixed != want_unfixed:
             problems.append(f"unfixed findings {got_unfixed}, expected {want_unfixed}")
-        want_lines = [(ln.replace("hello", "bye") if i in exp["edited"] else ln) for i, ln in enumerate(lines, 1)]
+        want_lines = [(ln.replace("hello", REPL) if i in exp["edited"] else ln) for i, ln in enumerate(lines, 1)]
         want_text = eol.join(want_lines) + (eol if sc["finalnl"] else "")
         if exp["writes"]:
             if after != want_text:
@@ -133,7 +135,7 @@ def check_regex(chk: Check) -> None:
             chk.violation(f"C19|regex|{mode}|{'+'.join(kinds)}",
                           f"{mode} regex pipeline, lines (matches, finding) = {[(ln['m'], ln['f']) for ln in doc]}, eol={sc['eol']} finalnl={sc['finalnl']} dry={sc['dry']}: {problems}",
                           {"text": text, "mode": mode, "problems": problems})
-    chk.sample({"regex_scenario": {"lines": "(matches, finding) per line", "example": [[True, True], [False, True], [True, False]], "mode": "sast"}})
+    chk.sample({"regex_scenario": {"lines": "(matches, finding) per line", "example": [[True, 2], [False, 1], [True, 0]], "mode": "sast"}})
     import shutil
 
     shutil.rmtree(base, ignore_errors=True)
